@@ -76,7 +76,7 @@ def score_of_exit_rule(ctx, P):
         tie = paths.guarded(fe, t["node"], lambda fn, cc, pol: paths.rel(fn, cc, pol) in (("bestscore", "==", "hist_entry->score"), ("hist_entry->score", "==", "bestscore")))
         ctx.check(s7, len(mates) == 1 or tie, key(fe, "entry-with-score:%s" % ("tie" if tie else "better")), fe.where(t["node"]), "an entry is selected without taking its score (and not under score == bestscore)")
     outs = [s for s in paths.stores(fe) if s["path"] == "*out_score"]
-    ctx.check(s7, len(outs) == 1 and fe.canon(outs[0]["rhs"], subst=False) == "bestscore" and len(bs) >= 1, key(fe, "reported"), fe.where(fe.root), "the score reported is not the best score of the selection loop")
+    ctx.check(s7, len(outs) == 1 and fe.canon(outs[0]["rhs"]) == "bestscore" and len(bs) >= 1, key(fe, "reported"), fe.where(fe.root), "the score reported is not the best score of the selection loop")
 
 
 def run(ctx):
